@@ -13,7 +13,8 @@ RULE = ("polylines with open and closed subpaths (turning angles 0..180 incl. ex
 
 
 def make_lines(rng, n):
-    return ["pstroke %d %s %s" % (i, pc.style_tokens(rng), scene.path_tokens(pc.polyline_ops(rng), 0)) for i in range(n)]
+    # the winding rule of the stroked path is irrelevant to its outline (which is always filled NonZero): both rules
+    return ["pstroke %d %s %s" % (i, pc.style_tokens(rng), scene.path_tokens(pc.polyline_ops(rng), i % 2)) for i in range(n)]
 
 
 def oracle(aug, impl):
@@ -46,7 +47,7 @@ def pixel_check(ctx):
         xf = (s, 0.0, 0.0, s, tx, ty)
         style = "STYLE %d %s %s %d 0 %d" % (FB(width), cap, join, FB(ml), FB(0.0))
         scenes.append("scene %d %d %d I %s ; xf %s ; stroke %s %s SRC solid ffffffff 3 %d 1" % (
-            i, W, H, " ".join(["00000000"] * (W * H)), scene.xf_tokens(xf), scene.path_tokens(ops, 0), style, FB(1.0)))
+            i, W, H, " ".join(["00000000"] * (W * H)), scene.xf_tokens(xf), scene.path_tokens(ops, i % 2), style, FB(1.0)))
         meta.append((ops, width, cap, join, ml, s, tx, ty))
     # wide strokes with small turning angles: the join wedge is pixels wide far away from the vertex
     angs = [2.4, 2.2, 1.8, 2.5, 5.0, 1.2, 3.0, 8.0, 0.5]
